@@ -277,3 +277,75 @@ def random_catalog(seed, count, prefix="R"):
             (sized_named if kind == "se" else unsized_named).append(t)
         out.append(t)
     return out
+
+
+# ----------------------------------------------------------------------------------------------
+# layout (C rule) and documented defaults — specification side, independent of the library
+# ----------------------------------------------------------------------------------------------
+def ceil_mul(x, m): return (x + m - 1) // m * m
+def align_of(t):
+    if isinstance(t, (Prim, BoolT)): return t.align
+    if isinstance(t, Arr): return align_of(t.t)
+    if isinstance(t, (VecT, FlexT)): return max(align_of(t.t), t.l.align)
+    if isinstance(t, StrT): return t.l.align
+    if isinstance(t, StructT): return max(align_of(ft) for _, ft in t.fields)
+    if isinstance(t, EnumT): return max([t.tag.align] + [align_of(ft) for _, _, fs in t.variants for _, ft in fs])
+    raise TypeError(t)
+def field_offsets(fs):
+    pos, out = 0, []
+    for ft in fs:
+        pos = ceil_mul(pos, align_of(ft)); out.append(pos)
+        if ft.sized: pos += size_of(ft)
+    return out
+def size_of(t):
+    if isinstance(t, (Prim, BoolT)): return t.size
+    if isinstance(t, Arr): return size_of(t.t) * t.n
+    if isinstance(t, StructT):
+        fs = [ft for _, ft in t.fields]; offs = field_offsets(fs)
+        return ceil_mul(offs[-1] + size_of(fs[-1]), align_of(t))
+    if isinstance(t, EnumT):
+        if t.clike: return t.tag.size
+        al = align_of(t); doff = ceil_mul(t.tag.size, al); mx = 0
+        for _, _, fs in t.variants:
+            if fs:
+                fl = [ft for _, ft in fs]; offs = field_offsets(fl)
+                mx = max(mx, ceil_mul(offs[-1] + size_of(fl[-1]), max(align_of(x) for x in fl)))
+        return ceil_mul(doff + mx, al)
+    raise TypeError(t)
+PADHEX = "ee"
+def enc_len(l, v):
+    b = [(v >> (8 * i)) & 255 for i in range(l.size)]
+    if l.be: b.reverse()
+    return "".join(f"{x:02x}" for x in b)
+def default_image(t):
+    """hex image of `Default::default()` of a sized type; padding = ee"""
+    if isinstance(t, (Prim, BoolT)): return "00" * t.size
+    if isinstance(t, Arr): return default_image(t.t) * t.n
+    if isinstance(t, StructT):
+        fs = [ft for _, ft in t.fields]; offs = field_offsets(fs)
+        img = [PADHEX] * size_of(t)
+        for ft, o in zip(fs, offs):
+            h = default_image(ft)
+            for i in range(len(h) // 2): img[o + i] = h[2 * i:2 * i + 2]
+        return "".join(img)
+    if isinstance(t, EnumT):
+        img = [PADHEX] * size_of(t)
+        h = enc_len(t.tag, t.default)
+        for i in range(len(h) // 2): img[i] = h[2 * i:2 * i + 2]
+        return "".join(img)
+    raise TypeError(t)
+def default_init(t):
+    """s-expression of the initialiser that the documentation says default_in_place is equivalent to"""
+    if not t.has_default: return None
+    if t.sized:
+        h = default_image(t)
+        return f"(raw {h if h else '-'})"
+    if isinstance(t, VecT): return "(ve)"
+    if isinstance(t, StrT): return "(sf -)"
+    if isinstance(t, FlexT): return "(fe)"
+    if isinstance(t, StructT):
+        hs = "".join(" " + (default_image(ft) or "-") for _, ft in t.fields[:-1])
+        return f"(us{hs} {default_init(t.fields[-1][1])})"
+    if isinstance(t, EnumT):
+        return f"(ue {t.default})"
+    raise TypeError(t)
